@@ -46,12 +46,22 @@ def seeded_rows(sysd, n, seed, nonneg=True):
     return np.array(rows)
 
 
-def run_proc(proc, sv: Sys, B, W, batch_size, opt):
-    """returns dict(X, Bp, obj) for one fitting procedure."""
+def run_proc(proc, sv: Sys, B, W, batch_size, opt, entry="function"):
+    """returns (X, Bp) for one fitting procedure, called as a function or through a ReceptorEstimator (which passes scalar
+    adaptation / baseline values as one-element arrays)."""
     from dreye.api.optimize import lsq_linear as L
 
     kw = sv.kwargs()
     Wa = None if W is None else np.asarray(W, dtype=float)
+    if entry == "estimator":
+        est = sv.make_estimator()
+        if Wa is not None:
+            est.register_targets(np.array(B, dtype=float), W=Wa)
+        if proc == "minimize":
+            X, Bp, Bvar = est.minimize_variance(B, batch_size=batch_size, l2_eps=1e-3, **opt)
+        else:
+            X, Bp = est.fit(B, model=proc, batch_size=batch_size, **opt)
+        return np.asarray(X), np.asarray(Bp)
     if proc in ("gaussian", "poisson"):
         X, Bp = L.lsq_linear(sv.A, B, W=Wa, batch_size=batch_size, model=proc, return_pred=True, **kw, **opt)
     elif proc == "excitation":
@@ -146,10 +156,11 @@ def body_grid(case):
     except Exception as e:  # the reference itself is C04/C07 territory: report it under its own label
         sfx = ":explicit-solver-unconverged" if (type(e).__name__ == "SolverError" and "solver" in opt) else ""
         raise Violation(f"grid:reference-exception:{type(e).__name__}{sfx}", f"{proc} with batch_size=1 raised {type(e).__name__}: {str(e)[:200]}")
-    with calling(f"{proc}(batch_size={bs!r}, n_samples={n})"):
-        got = run_proc(proc, sv, B, W, bs, opt)
+    entry = "estimator" if (n + (bs if isinstance(bs, int) else 1)) % 3 == 0 else "function"
+    with calling(f"{proc}(batch_size={bs!r}, n_samples={n}, entry {entry})"):
+        got = run_proc(proc, sv, B, W, bs, opt, entry=entry)
     compare(proc, sv, B, W, ref, got, tol, "grid")
-    labs = [proc, f"sys:{case['system']}", "rich" if case["rich"] else "plain", f"layout:{layout}"]
+    labs = [proc, f"sys:{case['system']}", "rich" if case["rich"] else "plain", f"layout:{layout}", f"entry:{entry}"]
     bsi = n if bs == "full" else (1 if bs is None else bs)
     if bsi > n:
         labs.append("nt:batch-larger-than-n")
@@ -193,7 +204,7 @@ def gen_case(draw):
     extra = draw(rows_strategy(sysd, 1))[0]
     k = draw(st.integers(0, n - 1))
     return dict(system=sysd, rows=rows, W=W, proc=proc, batch_size=bs, op=op, perm=list(perm), extra=extra, k=k,
-                layout=draw(st.sampled_from(["C", "F", "strided"])))
+                layout=draw(st.sampled_from(["C", "F", "strided"])), entry=draw(st.sampled_from(["function", "function", "estimator"])))
 
 
 def body_gen(case):
@@ -225,8 +236,9 @@ def body_gen(case):
         W2 = None if W is None else np.vstack([W, np.ones((1, sv.m))])
     B2 = gens.with_layout(B2, case.get("layout"))
     W2 = None if W2 is None else gens.with_layout(W2, case.get("layout"))
-    with calling(f"{proc}(batch_size={bs!r}, n_samples={B2.shape[0]}, rows {op}, layout {case.get('layout')})"):
-        got = run_proc(proc, sv, B2, W2, bs, opt)
+    entry = case.get("entry", "function")
+    with calling(f"{proc}(batch_size={bs!r}, n_samples={B2.shape[0]}, rows {op}, layout {case.get('layout')}, entry {entry})"):
+        got = run_proc(proc, sv, B2, W2, bs, opt, entry=entry)
     if op == "append":
         got_cmp = (got[0][:n], got[1][:n])
         check(got[0].shape[0] == n + 1, "gen:shape", f"{got[0].shape[0]} result rows for {n + 1} targets")
@@ -234,7 +246,7 @@ def body_gen(case):
     else:
         ref_cmp = (ref[0][idx], ref[1][idx])
         compare(proc, sv, B2, W2, ref_cmp, got, tol, "gen")
-    labs = sv.labels() + [proc, f"op:{op}", "W" if W is not None else "noW", f"layout:{case.get('layout')}"]
+    labs = sv.labels() + [proc, f"op:{op}", "W" if W is not None else "noW", f"layout:{case.get('layout')}", f"entry:{entry}"]
     m = B2.shape[0]
     bsi = m if bs == "full" else (1 if bs is None else bs)
     if bsi > m:
